@@ -206,10 +206,15 @@ type linEnv struct {
 	// cur: the constraints of the path being extended, set by linWalk before it evaluates expressions (used to decide the
 	// sign of a dividend)
 	cur linSys
+	// decl, when set, gives the declaration of a function: niladic one-line getters (return <expr>) are then read
+	// through; fields are atoms named by their selector path from the variable they are reached from
+	decl func(f *types.Func) (*ast.FuncDecl, *types.Info)
+	// alias: inside a getter read through, the name of its receiver stands for this expression of the caller
+	alias map[string]string
 }
 
 func (e *linEnv) clone() *linEnv {
-	n := &linEnv{info: e.info, vars: map[types.Object]linForm{}, defs: e.defs, atoms: e.atoms, lens: e.lens, elems: map[string]linForm{}}
+	n := &linEnv{info: e.info, vars: map[types.Object]linForm{}, defs: e.defs, atoms: e.atoms, lens: e.lens, elems: map[string]linForm{}, decl: e.decl}
 	n.facts = append(linSys{}, e.facts...)
 	for k, v := range e.vars {
 		n.vars[k] = v
@@ -256,7 +261,18 @@ func (e *linEnv) form(x ast.Expr, depth int) (linForm, bool) {
 				return lfAtom(t.Name), true
 			}
 		}
+	case *ast.SelectorExpr:
+		if a, ok := e.fieldAtom(t); ok {
+			return lfAtom(a), true
+		}
 	case *ast.CallExpr:
+		if ret, rinfo, al := e.getter(t); ret != nil {
+			sub := &linEnv{info: rinfo, vars: map[types.Object]linForm{}, defs: map[types.Object][]ast.Expr{}, atoms: e.atoms, lens: e.lens, elems: map[string]linForm{}, decl: e.decl, cur: e.cur, facts: e.facts, alias: al}
+			if f, ok := sub.form(ret, depth+1); ok {
+				e.facts = sub.facts
+				return f, true
+			}
+		}
 		if sel, ok := t.Fun.(*ast.SelectorExpr); ok && sel.Sel.Name == "Len" && len(t.Args) == 0 {
 			a := "|" + types.ExprString(sel.X) + "|"
 			e.atoms[a], e.lens[a] = true, true
@@ -360,6 +376,18 @@ func (e *linEnv) cond(x ast.Expr, neg bool) []linSys {
 		}
 	}
 	switch t := x.(type) {
+	case *ast.SelectorExpr:
+		if a, ok := e.fieldAtom(t); ok {
+			if neg {
+				return []linSys{{linLE(lfAtom(a), lfConst(0))}}
+			}
+			return []linSys{{linLE(lfConst(1), lfAtom(a))}}
+		}
+	case *ast.CallExpr:
+		if ret, rinfo, al := e.getter(t); ret != nil {
+			sub := &linEnv{info: rinfo, vars: map[types.Object]linForm{}, defs: map[types.Object][]ast.Expr{}, atoms: e.atoms, lens: e.lens, elems: map[string]linForm{}, decl: e.decl, cur: e.cur, facts: e.facts, alias: al}
+			return sub.cond(ret, neg)
+		}
 	case *ast.UnaryExpr:
 		if t.Op == token.NOT {
 			return e.cond(t.X, !neg)
@@ -634,4 +662,77 @@ func (p linPath) known() linSys {
 		out = append(out, lfAtom(a).scale(-1))
 	}
 	return out
+}
+
+// fieldAtom names the integer or boolean field reached by a selector chain: ".a.b" for x.a.b (booleans range over 0/1;
+// their bounds are added to the facts).
+func (e *linEnv) fieldAtom(sel *ast.SelectorExpr) (string, bool) {
+	v, ok := e.info.ObjectOf(sel.Sel).(*types.Var)
+	if !ok || !v.IsField() {
+		return "", false
+	}
+	bt, ok := v.Type().Underlying().(*types.Basic)
+	if !ok || (bt.Info()&types.IsInteger == 0 && bt.Kind() != types.Bool) {
+		return "", false
+	}
+	path := "." + sel.Sel.Name
+	x := ast.Unparen(sel.X)
+	for {
+		if s2, ok := x.(*ast.SelectorExpr); ok {
+			path = "." + s2.Sel.Name + path
+			x = ast.Unparen(s2.X)
+			continue
+		}
+		break
+	}
+	root, ok := x.(*ast.Ident)
+	if !ok {
+		return "", false
+	}
+	if a, ok := e.alias[root.Name]; ok {
+		path = a + path
+	} else {
+		path = root.Name + path
+	}
+	if !e.atoms[path] && bt.Kind() == types.Bool {
+		e.facts = append(e.facts, linLE(lfConst(0), lfAtom(path)), linLE(lfAtom(path), lfConst(1)))
+	}
+	e.atoms[path] = true
+	return path, true
+}
+
+// getter: for a call without argument of a function whose body is 'return <expr>', that expression and its type information.
+func (e *linEnv) getter(call *ast.CallExpr) (ast.Expr, *types.Info, map[string]string) {
+	if e.decl == nil || len(call.Args) != 0 {
+		return nil, nil, nil
+	}
+	var fn *types.Func
+	switch f := ast.Unparen(call.Fun).(type) {
+	case *ast.SelectorExpr:
+		fn, _ = e.info.ObjectOf(f.Sel).(*types.Func)
+	case *ast.Ident:
+		fn, _ = e.info.ObjectOf(f).(*types.Func)
+	}
+	if fn == nil {
+		return nil, nil, nil
+	}
+	d, di := e.decl(fn)
+	if d == nil || d.Body == nil || len(d.Body.List) != 1 {
+		return nil, nil, nil
+	}
+	r, ok := d.Body.List[0].(*ast.ReturnStmt)
+	if !ok || len(r.Results) != 1 {
+		return nil, nil, nil
+	}
+	al := map[string]string{}
+	if sel, ok := ast.Unparen(call.Fun).(*ast.SelectorExpr); ok && d.Recv != nil && len(d.Recv.List) == 1 && len(d.Recv.List[0].Names) == 1 {
+		recv := types.ExprString(sel.X)
+		if id, ok := ast.Unparen(sel.X).(*ast.Ident); ok {
+			if a, ok := e.alias[id.Name]; ok {
+				recv = a
+			}
+		}
+		al[d.Recv.List[0].Names[0].Name] = recv
+	}
+	return r.Results[0], di, al
 }
